@@ -57,6 +57,13 @@ MODELLED = [
     ("only_equals", "prqlc/prqlc/src/sql/pq/preprocess.rs", r"fn\s+only_equals\s*\("),
     ("used_behind", "prqlc/prqlc/src/sql/pq/preprocess.rs", r"fn\s+used_behind\s*\("),
     ("lookup_cid", "prqlc/prqlc/src/semantic/lowering.rs", r"fn\s+lookup_cid\s*\("),
+    ("non_finite_literals", "prqlc/prqlc-parser/src/lexer/mod.rs", r"fn\s+non_finite_literals\s*\("),
+    # closure application (Model/Closure.v)
+    ("fold_function_inner", "prqlc/prqlc/src/semantic/resolver/functions.rs", r"fn\s+fold_function_inner\s*\("),
+    ("materialize_function", "prqlc/prqlc/src/semantic/resolver/functions.rs", r"fn\s+materialize_function\s*\("),
+    ("apply_args_to_closure", "prqlc/prqlc/src/semantic/resolver/functions.rs", r"pub\s+fn\s+apply_args_to_closure\s*\("),
+    ("unpack", "prqlc/prqlc/src/semantic/resolver/transforms.rs", r"fn\s+unpack<const\s+P:\s*usize>\s*\("),
+    ("desugar_pipeline", "prqlc/prqlc/src/semantic/ast_expand.rs", r"fn\s+desugar_pipeline\s*\("),
 ]
 # statement-level excerpts (anchored regex over whitespace-normalised, comment-free source; group 1 is pinned;
 # the last field says whether string literal contents are kept (True) or blanked (False) in the text searched)
@@ -430,7 +437,7 @@ def write_baseline():
     print("baseline written: %d (file, kind) rows, totals %s" % (len(info["sites"]), info["total"]))
 
 
-REVIEW_NOTE = """(* REVIEW LOG of the last re-recording (/repo at 1b54dc3, 63 commits after b55902d; the six fix commits after e6f83f8 -- 21fe768 f809321 8eee066 1ae3488 1f1ce08 e3202e5 -- add no site).  Rows that grew since the
+REVIEW_NOTE = """(* REVIEW LOG of the last re-recording (/repo at d060422, 79 commits after b55902d).  Rows that grew since the
    baseline of b55902d, every added site read in its context; each is restated with its guard in Model/ReviewedSites.v
    and proved unreachable in Proofs/ReviewedSitesProofs.v (theorems c12_reviewed_* of Props/C12.v), its text pinned in
    `modelled_expected`:
@@ -450,11 +457,15 @@ REVIEW_NOTE = """(* REVIEW LOG of the last re-recording (/repo at 1b54dc3, 63 co
                                   nothing removes from relation_instances (same reliance as the three existing
                                   `relation_instances.get(..).unwrap()` of this file).  NOT modelled: an invariant of
                                   the anchor context, not a local guard.
+     prqlc-parser lexer/mod.rs    index 2 -> 4      `source[..t.span.start]`, `source[..t.span.end]` in non_finite_literals
+                                  (d8fda67): byte offsets of a token, i.e. character boundaries of the source the
+                                  tokens were lexed from                                (c12_reviewed_token_prefix_chars)
      semantic/lowering.rs         unwrap 41 -> 40 (287b286 removed two, 7911778 added one): `name.as_single().unwrap()`
                                   in lookup_cid on a value built as RelationColumn::Single(Some(..)) a few lines
                                   above                                                    (c12_reviewed_lookup_cid_name)
    Rows that shrank: lowering.rs panic 1 -> 0 (7911778) and unwrap 40 -> 39 (e6f83f8), utils/id_gen.rs unwrap 1 -> 0
-   (79f4a51), postprocess.rs index 7 -> 6, sql/gen_query.rs index_lit 2 -> 1 (1f1ce08).  006e33c (lowering.rs), bb7bbd5 (std.sql.prql), 6cdd79f (generated column
+   (79f4a51), postprocess.rs index 7 -> 6, sql/gen_query.rs index_lit 2 -> 1 (1f1ce08), resolver/transforms.rs unwrap 50 -> 44
+   (efa86fc, finding C12-N15), sql/gen_expr.rs unwrap 9 -> 8 (9c40b5a).  006e33c (lowering.rs), bb7bbd5 (std.sql.prql), 6cdd79f (generated column
    names) add no site.  arith 11 -> 13: the newly modelled functions (codegen/mod.rs consume -- reset_line's product is a
    saturating_mul since b4fb037 --, preprocess.rs `position + 1`), restated in Model/WidthArith.v / Model/ReviewedSites.v.
    Code under #[cfg(prqlc_verif)] (the verification hooks) is not scanned: it is not compiled in normal builds. *)
